@@ -39,7 +39,7 @@ PROPS = {
         level_text="Proof: for every program over the write API, every buffer size, role, pool and compression setting and every environment answer, the wire of a fault-free connection is a concatenation of frames that the strict RFC 6455 decoder (written from the RFC in WS/Spec/Frame.lean; non-minimal lengths are undecodable) accepts, masked iff client; frame-record level well-formedness (RSV bits, fragmentation grammar, control frames) and payload content are WS.Lemmas.WireWF / Content. Tie: exact wire bytes of the real package vs the model on random programs incl. prepared messages, compression toggles, pools; independent Go RFC decoder + inflater on the real wire.",
         level_note="crypto/rand quality is not modelled (site inventory pins newMaskKey/maskRand uses); flate output is an environment answer validated against the trunc spec. Finding F8 (prepared data message while a writer is open) excluded from the grammar theorem and recorded.",
         lean=["WS.Props.C02"],
-        streams=[("w", 800, 16000), ("wclose", 300, 6000)],
+        streams=[("w", 800, 16000), ("wclose", 300, 6000), ("wf8", 150, 2000)],
         assumptions=[ASSUME_FLATE],
     ),
     "C03": P(
@@ -98,6 +98,13 @@ PROPS = {
         streams=[("wfault", 1100, 20000), ("w", 300, 4000)],
         assumptions=[ASSUME_FLATE],
     ),
+    "C11": P(
+        technique="Lean 4 theorem over an interleaving semantics with non-atomic transport writes (invariant by induction over the step relation) + decide over the regenerated field-access table and skeletons + forced-schedule exploration",
+        level_text="Proof: in every reachable state of every interleaving of any number of threads, with the transport accepting each frame in any number of parts, the parts of a frame are contiguous on the wire (control frames only between whole frames); a WriteControl that gives up waiting writes nothing, does not poison the connection, and can always give up even while the writer is blocked inside the transport; mutual exclusion. Translator tie: the atomic actions are those of today's Conn.write / WriteControl (C09.WellLocked over regenerated skeletons); lock_discipline is decided over the field-access table regenerated from the source (every mutable Conn field is touched only by functions of its owning role, the mutex and writeErr only by the four protocol functions; PreparedMessage.frames/once only by frame). Exploration: forced schedules with real goroutines (writer parked inside the transport, 0-6 WriteControl callers with 25 ms / 5 s deadlines, a close among them); thorough adds a -race build of the same runs when the toolchain supports it.",
+        level_note="Partial: the Go memory model, scheduler, timers, sync.Pool and sync.Once are not modelled; data-race freedom is argued from the ownership table plus -race runs, not proved. The sched stream has no model side (outcomes are schedule dependent); it is judged by the RFC oracle.",
+        lean=["WS.Props.C11"],
+        streams=[("sched", 60, 1500), ("prep", 150, 2000)],
+    ),
     "C12": P(
         technique="Lean 4 theorems over the decision function of Upgrade + decide over the regenerated rejection chain + differential correspondence with grammar-level oracles",
         level_text="Proof: Upgrade succeeds iff every condition of the chain holds; 403 exactly for the origin, 426 (with the Connection token present) exactly for a missing Upgrade token; compression is announced iff enabled and an extension named permessage-deflate was offered; the selected subprotocol was offered and is supported; whatever bytes the application supplies as header values or subprotocol the 101 has exactly the expected lines (no_injection, incl. the F5 fix); Accept = base64(SHA-1(key++GUID)) with the GUID of today's source (RFC vector checked in the kernel); the rejection chain recognised in today's Upgrade is the modelled one. Tie: handshakes from the grammar (OWS, case, extra tokens, several lines, near-miss tokens, malformed lists, keys of many decoded lengths, offers with parameters and quoted strings), all Upgrader settings, response headers with control bytes; model predicts status / 101 lines / reader and buffer choice exactly; oracle judges with an independent list grammar, SHA-1 and line splitter.",
@@ -148,6 +155,14 @@ PROPS = {
         level_note="Partial: crypto/tls and x/net/proxy are exercised, not modelled; cells that need the real network (no custom dial function applicable) are not runnable offline and are skipped; proxy selection via environment variables is net/http's.",
         lean=["WS.Props.C18"],
         streams=[("matrix", 220, 1700), ("unit", 200, 2000), ("hsfault", 6, 6)],
+    ),
+    "C19": P(
+        technique="Lean 4 theorems over the prepared-message model (via the per-message round-trip theorem) + differential correspondence with shared prepared messages",
+        level_text="Proof: the cache key is computed from the connection's role and compression settings at the time of the call; an uncompressed image is what WriteMessage writes on a fresh connection of that role and decodes to exactly one message with the type and payload given at creation, for every size (beyond the 4096-byte internal buffer) and either role; sending never changes a cached entry nor the type/payload; a new entry is the rendering of exactly its key; a compressed image is cached only if it decodes to one well-formed compressed message whose payload is the deflate stream minus its tail; a hit is sent in one transport write under the connection's deadline. Tie: one or more PreparedMessages shared by 1-4 connections of random roles / compression settings / levels, random order, toggles between sends; exact wire bytes compared with the model (mask keys of rendered client frames included); independent decoder + inflater: wire message = (type, payload at creation).",
+        level_note="Compressed images are environment answers validated by imageOk (frame boundaries depend on flate's chunking); concurrent first use of a key relies on sync.Once / sync.Mutex (C11 table: frames/once only in frame).",
+        lean=["WS.Props.C19"],
+        streams=[("prep", 800, 16000), ("w", 300, 4000)],
+        assumptions=[ASSUME_FLATE],
     ),
     "C20": P(
         technique="Lean 4 invariant proof over all write programs and fault scripts + differential correspondence with a poisoning pool",
